@@ -172,10 +172,13 @@ class ManageSieveConnection:
     async def _read_data(self) -> memoryview:
         data = bytearray()
         while True:
-            data += await self.reader.readline()
-            if not data.endswith(b'\n'):
+            line = await self.reader.readline()
+            data += line
+            if not line.endswith(b'\n'):
                 raise EOFError()
-            match = self._literal_plus.search(data)
+            # only the line just read can end in a literal+ marker, never
+            # the tail of the literal data before it
+            match = self._literal_plus.search(line)
             if not match:
                 break
             try:
